@@ -1,0 +1,297 @@
+//go:build verif
+
+// Contracts for the verification machinery under /verif (contract-based deductive
+// verification). This file is comment-only, is excluded from every normal build by the
+// "verif" build tag, and declares nothing. See /verif/DESIGN.md §4.
+
+package parser
+
+// C01 (Compile never hands out an expression tree that crashes Evaluate): every Visit method is
+// total on a grammar-shaped parse tree (assumed contracts on the generated accessors,
+// /verif/contracts/ext/grammar.spec; operator token sets g4op_* generated from fhirpath.g4 on
+// every run) and returns a non-nil *VisitResult that carries an error or a non-nil expression;
+// every node handed to the transform satisfies the precondition of its own Evaluate contract
+// (operands non-nil, an arithmetic operator function set, function value set, sequence members
+// non-nil): these are the `requires` of transformedVisitResult, proved at each construction site.
+
+//@ func IdentityTransform(e) (r)
+//@   ensures r == e
+//@   assigns nothing
+
+// a user-supplied transform (compopts.Transform, patch) maps an expression to an expression
+// that is again well-formed in the sense below:
+// ASSUMED of the function value (proved for IdentityTransform)
+//@ field FHIRPathVisitor.Transform(e) (r)
+//@   ensures e != nil ==> r != nil && wfExprP(r)
+//@   assigns nothing
+
+//@ func (v *FHIRPathVisitor) clone() (r)
+//@   requires v != nil
+//@   ensures r != nil && fresh(r) && r.Functions == v.Functions && r.Transform == v.Transform && r.Permissive == v.Permissive && !r.visitedRoot
+//@   assigns nothing
+
+// The function table of a visitor has an implementation for every entry (established by
+// fhirpath.Compile from the table contracts, kept by clone); it is part of every Visit method's
+// precondition and checked wherever a visitor is handed to Visit.
+// dispatch through the ANTLR-generated Accept back into the Visit methods below: the induction
+// hypothesis of the tree walk (each Visit method proves its own clause of it)
+//@ func (v *FHIRPathVisitor) Visit(tree) (r)
+//@   requires v != nil && tree != nil
+//@   requires forall f string :: haskey(v.Functions, f) ==> v.Functions[f].Func != nil
+//@   trusted
+//@   ensures treeKind(tree) == 1 ==> istype(r, *VisitResult) && unbox(r, *VisitResult) != nil && (unbox(r, *VisitResult).Error != nil || (unbox(r, *VisitResult).Result != nil && (wfExprP(unbox(r, *VisitResult).Result) || istype(unbox(r, *VisitResult).Result, *expr.IdentityExpression))))
+//@   ensures treeKind(tree) == 2 ==> istype(r, *typeResult) && unbox(r, *typeResult) != nil
+//@   ensures treeKind(tree) == 3 ==> istype(r, []*VisitResult) && len(unbox(r, []*VisitResult)) == g4NParams(tree) && (forall k int :: 0 <= k && k < len(unbox(r, []*VisitResult)) ==> unbox(r, []*VisitResult)[k] != nil && (unbox(r, []*VisitResult)[k].Error != nil || (unbox(r, []*VisitResult)[k].Result != nil && (wfExprP(unbox(r, []*VisitResult)[k].Result) || istype(unbox(r, []*VisitResult)[k].Result, *expr.IdentityExpression)))))
+//@   ensures treeKind(tree) == 4 ==> istype(r, []string)
+//@   assigns v.visitedRoot, v.Transform
+
+// wf(node) for the node about to be published: exactly the preconditions of the Evaluate
+// contracts, for the node and (through wfExprP, the induction hypothesis: "was published by a
+// Visit method") for its operands. A node that is passed on unchanged is wf by hypothesis.
+//@ func (v *FHIRPathVisitor) transformedVisitResult(resultExpr) (r)
+//@   requires v != nil && resultExpr != nil
+//@   requires wfExprP(resultExpr) || (istype(resultExpr, *expr.ArithmeticExpression) ==> unbox(resultExpr, *expr.ArithmeticExpression) != nil && unbox(resultExpr, *expr.ArithmeticExpression).Left != nil && unbox(resultExpr, *expr.ArithmeticExpression).Right != nil && (wfExprP(unbox(resultExpr, *expr.ArithmeticExpression).Left) || istype(unbox(resultExpr, *expr.ArithmeticExpression).Left, *expr.IdentityExpression)) && (wfExprP(unbox(resultExpr, *expr.ArithmeticExpression).Right) || istype(unbox(resultExpr, *expr.ArithmeticExpression).Right, *expr.IdentityExpression)))
+//@   requires wfExprP(resultExpr) || (istype(resultExpr, *expr.ArithmeticExpression) ==> unbox(resultExpr, *expr.ArithmeticExpression).Op == expr.EvaluateAdd || unbox(resultExpr, *expr.ArithmeticExpression).Op == expr.EvaluateSub || unbox(resultExpr, *expr.ArithmeticExpression).Op == expr.EvaluateMul || unbox(resultExpr, *expr.ArithmeticExpression).Op == expr.EvaluateDiv || unbox(resultExpr, *expr.ArithmeticExpression).Op == expr.EvaluateFloorDiv || unbox(resultExpr, *expr.ArithmeticExpression).Op == expr.EvaluateMod)
+//@   requires wfExprP(resultExpr) || (istype(resultExpr, *expr.BooleanExpression) ==> unbox(resultExpr, *expr.BooleanExpression) != nil && unbox(resultExpr, *expr.BooleanExpression).Left != nil && unbox(resultExpr, *expr.BooleanExpression).Right != nil && (wfExprP(unbox(resultExpr, *expr.BooleanExpression).Left) || istype(unbox(resultExpr, *expr.BooleanExpression).Left, *expr.IdentityExpression)) && (wfExprP(unbox(resultExpr, *expr.BooleanExpression).Right) || istype(unbox(resultExpr, *expr.BooleanExpression).Right, *expr.IdentityExpression)))
+//@   requires wfExprP(resultExpr) || (istype(resultExpr, *expr.ConcatExpression) ==> unbox(resultExpr, *expr.ConcatExpression) != nil && unbox(resultExpr, *expr.ConcatExpression).Left != nil && unbox(resultExpr, *expr.ConcatExpression).Right != nil && (wfExprP(unbox(resultExpr, *expr.ConcatExpression).Left) || istype(unbox(resultExpr, *expr.ConcatExpression).Left, *expr.IdentityExpression)) && (wfExprP(unbox(resultExpr, *expr.ConcatExpression).Right) || istype(unbox(resultExpr, *expr.ConcatExpression).Right, *expr.IdentityExpression)))
+//@   requires wfExprP(resultExpr) || (istype(resultExpr, *expr.ComparisonExpression) ==> unbox(resultExpr, *expr.ComparisonExpression) != nil && unbox(resultExpr, *expr.ComparisonExpression).Left != nil && unbox(resultExpr, *expr.ComparisonExpression).Right != nil && (wfExprP(unbox(resultExpr, *expr.ComparisonExpression).Left) || istype(unbox(resultExpr, *expr.ComparisonExpression).Left, *expr.IdentityExpression)) && (wfExprP(unbox(resultExpr, *expr.ComparisonExpression).Right) || istype(unbox(resultExpr, *expr.ComparisonExpression).Right, *expr.IdentityExpression)))
+//@   requires wfExprP(resultExpr) || (istype(resultExpr, *expr.EqualityExpression) ==> unbox(resultExpr, *expr.EqualityExpression) != nil && unbox(resultExpr, *expr.EqualityExpression).Left != nil && unbox(resultExpr, *expr.EqualityExpression).Right != nil && (wfExprP(unbox(resultExpr, *expr.EqualityExpression).Left) || istype(unbox(resultExpr, *expr.EqualityExpression).Left, *expr.IdentityExpression)) && (wfExprP(unbox(resultExpr, *expr.EqualityExpression).Right) || istype(unbox(resultExpr, *expr.EqualityExpression).Right, *expr.IdentityExpression)))
+//@   requires wfExprP(resultExpr) || (istype(resultExpr, *expr.IsExpression) ==> unbox(resultExpr, *expr.IsExpression) != nil && unbox(resultExpr, *expr.IsExpression).Expr != nil && (wfExprP(unbox(resultExpr, *expr.IsExpression).Expr) || istype(unbox(resultExpr, *expr.IsExpression).Expr, *expr.IdentityExpression)))
+//@   requires wfExprP(resultExpr) || (istype(resultExpr, *expr.AsExpression) ==> unbox(resultExpr, *expr.AsExpression) != nil && unbox(resultExpr, *expr.AsExpression).Expr != nil && (wfExprP(unbox(resultExpr, *expr.AsExpression).Expr) || istype(unbox(resultExpr, *expr.AsExpression).Expr, *expr.IdentityExpression)))
+//@   requires wfExprP(resultExpr) || (istype(resultExpr, *expr.NegationExpression) ==> unbox(resultExpr, *expr.NegationExpression) != nil && unbox(resultExpr, *expr.NegationExpression).Expr != nil && (wfExprP(unbox(resultExpr, *expr.NegationExpression).Expr) || istype(unbox(resultExpr, *expr.NegationExpression).Expr, *expr.IdentityExpression)))
+//@   requires wfExprP(resultExpr) || (istype(resultExpr, *expr.FunctionExpression) ==> unbox(resultExpr, *expr.FunctionExpression) != nil && unbox(resultExpr, *expr.FunctionExpression).Fn != nil)
+//@   requires wfExprP(resultExpr) || (istype(resultExpr, *expr.ExpressionSequence) ==> unbox(resultExpr, *expr.ExpressionSequence) != nil && (forall k int :: 0 <= k && k < len(unbox(resultExpr, *expr.ExpressionSequence).Expressions) ==> unbox(resultExpr, *expr.ExpressionSequence).Expressions[k] != nil && ((wfExprP(unbox(resultExpr, *expr.ExpressionSequence).Expressions[k]) || istype(unbox(resultExpr, *expr.ExpressionSequence).Expressions[k], *expr.IdentityExpression)) || (istype(unbox(resultExpr, *expr.ExpressionSequence).Expressions[k], *expr.IndexExpression) && unbox(unbox(resultExpr, *expr.ExpressionSequence).Expressions[k], *expr.IndexExpression) != nil && unbox(unbox(resultExpr, *expr.ExpressionSequence).Expressions[k], *expr.IndexExpression).Index != nil && (wfExprP(unbox(unbox(resultExpr, *expr.ExpressionSequence).Expressions[k], *expr.IndexExpression).Index) || istype(unbox(unbox(resultExpr, *expr.ExpressionSequence).Expressions[k], *expr.IndexExpression).Index, *expr.IdentityExpression))))))
+//@   ensures r != nil && r.Error == nil && r.Result != nil && wfExprP(r.Result)
+//@   assigns v.Transform
+
+// a tree without syntax errors: the operator child is a terminal whose text is one of the
+// alternatives of the grammar rule (g4op_*: generated from fhirpath.g4)
+//@ func (v *FHIRPathVisitor) VisitProg(ctx) (r)
+//@   requires v != nil && ctx != nil
+//@   requires forall f string :: haskey(v.Functions, f) ==> v.Functions[f].Func != nil
+//@   ensures istype(r, *VisitResult) && unbox(r, *VisitResult) != nil && (unbox(r, *VisitResult).Error != nil || (unbox(r, *VisitResult).Result != nil && (wfExprP(unbox(r, *VisitResult).Result) || istype(unbox(r, *VisitResult).Result, *expr.IdentityExpression))))
+//@   assigns v.visitedRoot, v.Transform
+//@ func (v *FHIRPathVisitor) VisitIndexerExpression(ctx) (r)
+//@   requires v != nil && ctx != nil
+//@   requires forall f string :: haskey(v.Functions, f) ==> v.Functions[f].Func != nil
+//@   ensures istype(r, *VisitResult) && unbox(r, *VisitResult) != nil && (unbox(r, *VisitResult).Error != nil || (unbox(r, *VisitResult).Result != nil && (wfExprP(unbox(r, *VisitResult).Result) || istype(unbox(r, *VisitResult).Result, *expr.IdentityExpression))))
+//@   assigns v.visitedRoot, v.Transform
+//@ func (v *FHIRPathVisitor) VisitPolarityExpression(ctx) (r)
+//@   requires v != nil && ctx != nil
+//@   requires forall f string :: haskey(v.Functions, f) ==> v.Functions[f].Func != nil
+//@   requires implements(childOf(ctx, 0), antlr.TerminalNode) && g4op_polarityExpression(nodeText(childOf(ctx, 0)))
+//@   ensures istype(r, *VisitResult) && unbox(r, *VisitResult) != nil && (unbox(r, *VisitResult).Error != nil || (unbox(r, *VisitResult).Result != nil && (wfExprP(unbox(r, *VisitResult).Result) || istype(unbox(r, *VisitResult).Result, *expr.IdentityExpression))))
+//@   assigns v.visitedRoot, v.Transform
+//@ func (v *FHIRPathVisitor) VisitAdditiveExpression(ctx) (r)
+//@   requires v != nil && ctx != nil
+//@   requires forall f string :: haskey(v.Functions, f) ==> v.Functions[f].Func != nil
+//@   requires implements(childOf(ctx, 1), antlr.TerminalNode) && g4op_additiveExpression(nodeText(childOf(ctx, 1)))
+//@   ensures istype(r, *VisitResult) && unbox(r, *VisitResult) != nil && (unbox(r, *VisitResult).Error != nil || (unbox(r, *VisitResult).Result != nil && (wfExprP(unbox(r, *VisitResult).Result) || istype(unbox(r, *VisitResult).Result, *expr.IdentityExpression))))
+//@   assigns v.visitedRoot, v.Transform
+//@ func (v *FHIRPathVisitor) VisitMultiplicativeExpression(ctx) (r)
+//@   requires v != nil && ctx != nil
+//@   requires forall f string :: haskey(v.Functions, f) ==> v.Functions[f].Func != nil
+//@   requires implements(childOf(ctx, 1), antlr.TerminalNode) && g4op_multiplicativeExpression(nodeText(childOf(ctx, 1)))
+//@   ensures istype(r, *VisitResult) && unbox(r, *VisitResult) != nil && (unbox(r, *VisitResult).Error != nil || (unbox(r, *VisitResult).Result != nil && (wfExprP(unbox(r, *VisitResult).Result) || istype(unbox(r, *VisitResult).Result, *expr.IdentityExpression))))
+//@   assigns v.visitedRoot, v.Transform
+//@ func (v *FHIRPathVisitor) VisitOrExpression(ctx) (r)
+//@   requires v != nil && ctx != nil
+//@   requires forall f string :: haskey(v.Functions, f) ==> v.Functions[f].Func != nil
+//@   requires implements(childOf(ctx, 1), antlr.TerminalNode) && g4op_orExpression(nodeText(childOf(ctx, 1)))
+//@   ensures istype(r, *VisitResult) && unbox(r, *VisitResult) != nil && (unbox(r, *VisitResult).Error != nil || (unbox(r, *VisitResult).Result != nil && (wfExprP(unbox(r, *VisitResult).Result) || istype(unbox(r, *VisitResult).Result, *expr.IdentityExpression))))
+//@   assigns v.visitedRoot, v.Transform
+//@ func (v *FHIRPathVisitor) VisitAndExpression(ctx) (r)
+//@   requires v != nil && ctx != nil
+//@   requires forall f string :: haskey(v.Functions, f) ==> v.Functions[f].Func != nil
+//@   ensures istype(r, *VisitResult) && unbox(r, *VisitResult) != nil && (unbox(r, *VisitResult).Error != nil || (unbox(r, *VisitResult).Result != nil && (wfExprP(unbox(r, *VisitResult).Result) || istype(unbox(r, *VisitResult).Result, *expr.IdentityExpression))))
+//@   assigns v.visitedRoot, v.Transform
+//@ func (v *FHIRPathVisitor) VisitInequalityExpression(ctx) (r)
+//@   requires v != nil && ctx != nil
+//@   requires forall f string :: haskey(v.Functions, f) ==> v.Functions[f].Func != nil
+//@   requires implements(childOf(ctx, 1), antlr.TerminalNode) && g4op_inequalityExpression(nodeText(childOf(ctx, 1)))
+//@   ensures istype(r, *VisitResult) && unbox(r, *VisitResult) != nil && (unbox(r, *VisitResult).Error != nil || (unbox(r, *VisitResult).Result != nil && (wfExprP(unbox(r, *VisitResult).Result) || istype(unbox(r, *VisitResult).Result, *expr.IdentityExpression))))
+//@   assigns v.visitedRoot, v.Transform
+//@ func (v *FHIRPathVisitor) VisitInvocationExpression(ctx) (r)
+//@   requires v != nil && ctx != nil
+//@   requires forall f string :: haskey(v.Functions, f) ==> v.Functions[f].Func != nil
+//@   ensures istype(r, *VisitResult) && unbox(r, *VisitResult) != nil && (unbox(r, *VisitResult).Error != nil || (unbox(r, *VisitResult).Result != nil && (wfExprP(unbox(r, *VisitResult).Result) || istype(unbox(r, *VisitResult).Result, *expr.IdentityExpression))))
+//@   assigns v.visitedRoot, v.Transform
+//@ func (v *FHIRPathVisitor) VisitEqualityExpression(ctx) (r)
+//@   requires v != nil && ctx != nil
+//@   requires forall f string :: haskey(v.Functions, f) ==> v.Functions[f].Func != nil
+//@   requires implements(childOf(ctx, 1), antlr.TerminalNode) && g4op_equalityExpression(nodeText(childOf(ctx, 1)))
+//@   ensures istype(r, *VisitResult) && unbox(r, *VisitResult) != nil && (unbox(r, *VisitResult).Error != nil || (unbox(r, *VisitResult).Result != nil && (wfExprP(unbox(r, *VisitResult).Result) || istype(unbox(r, *VisitResult).Result, *expr.IdentityExpression))))
+//@   assigns v.visitedRoot, v.Transform
+//@ func (v *FHIRPathVisitor) VisitImpliesExpression(ctx) (r)
+//@   requires v != nil && ctx != nil
+//@   requires forall f string :: haskey(v.Functions, f) ==> v.Functions[f].Func != nil
+//@   ensures istype(r, *VisitResult) && unbox(r, *VisitResult) != nil && (unbox(r, *VisitResult).Error != nil || (unbox(r, *VisitResult).Result != nil && (wfExprP(unbox(r, *VisitResult).Result) || istype(unbox(r, *VisitResult).Result, *expr.IdentityExpression))))
+//@   assigns v.visitedRoot, v.Transform
+//@ func (v *FHIRPathVisitor) VisitTermExpression(ctx) (r)
+//@   requires v != nil && ctx != nil
+//@   requires forall f string :: haskey(v.Functions, f) ==> v.Functions[f].Func != nil
+//@   ensures istype(r, *VisitResult) && unbox(r, *VisitResult) != nil && (unbox(r, *VisitResult).Error != nil || (unbox(r, *VisitResult).Result != nil && (wfExprP(unbox(r, *VisitResult).Result) || istype(unbox(r, *VisitResult).Result, *expr.IdentityExpression))))
+//@   assigns v.visitedRoot, v.Transform
+//@ func (v *FHIRPathVisitor) VisitTypeExpression(ctx) (r)
+//@   requires v != nil && ctx != nil
+//@   requires forall f string :: haskey(v.Functions, f) ==> v.Functions[f].Func != nil
+//@   requires implements(childOf(ctx, 1), antlr.TerminalNode) && g4op_typeExpression(nodeText(childOf(ctx, 1)))
+//@   ensures istype(r, *VisitResult) && unbox(r, *VisitResult) != nil && (unbox(r, *VisitResult).Error != nil || (unbox(r, *VisitResult).Result != nil && (wfExprP(unbox(r, *VisitResult).Result) || istype(unbox(r, *VisitResult).Result, *expr.IdentityExpression))))
+//@   assigns v.visitedRoot, v.Transform
+//@ func (v *FHIRPathVisitor) VisitInvocationTerm(ctx) (r)
+//@   requires v != nil && ctx != nil
+//@   requires forall f string :: haskey(v.Functions, f) ==> v.Functions[f].Func != nil
+//@   ensures istype(r, *VisitResult) && unbox(r, *VisitResult) != nil && (unbox(r, *VisitResult).Error != nil || (unbox(r, *VisitResult).Result != nil && (wfExprP(unbox(r, *VisitResult).Result) || istype(unbox(r, *VisitResult).Result, *expr.IdentityExpression))))
+//@   assigns v.visitedRoot, v.Transform
+//@ func (v *FHIRPathVisitor) VisitLiteralTerm(ctx) (r)
+//@   requires v != nil && ctx != nil
+//@   requires forall f string :: haskey(v.Functions, f) ==> v.Functions[f].Func != nil
+//@   ensures istype(r, *VisitResult) && unbox(r, *VisitResult) != nil && (unbox(r, *VisitResult).Error != nil || (unbox(r, *VisitResult).Result != nil && (wfExprP(unbox(r, *VisitResult).Result) || istype(unbox(r, *VisitResult).Result, *expr.IdentityExpression))))
+//@   assigns v.visitedRoot, v.Transform
+//@ func (v *FHIRPathVisitor) VisitExternalConstantTerm(ctx) (r)
+//@   requires v != nil && ctx != nil
+//@   requires forall f string :: haskey(v.Functions, f) ==> v.Functions[f].Func != nil
+//@   ensures istype(r, *VisitResult) && unbox(r, *VisitResult) != nil && (unbox(r, *VisitResult).Error != nil || (unbox(r, *VisitResult).Result != nil && (wfExprP(unbox(r, *VisitResult).Result) || istype(unbox(r, *VisitResult).Result, *expr.IdentityExpression))))
+//@   assigns v.visitedRoot, v.Transform
+//@ func (v *FHIRPathVisitor) VisitParenthesizedTerm(ctx) (r)
+//@   requires v != nil && ctx != nil
+//@   requires forall f string :: haskey(v.Functions, f) ==> v.Functions[f].Func != nil
+//@   ensures istype(r, *VisitResult) && unbox(r, *VisitResult) != nil && (unbox(r, *VisitResult).Error != nil || (unbox(r, *VisitResult).Result != nil && (wfExprP(unbox(r, *VisitResult).Result) || istype(unbox(r, *VisitResult).Result, *expr.IdentityExpression))))
+//@   assigns v.visitedRoot, v.Transform
+//@ func (v *FHIRPathVisitor) VisitNullLiteral(ctx) (r)
+//@   requires v != nil && ctx != nil
+//@   requires forall f string :: haskey(v.Functions, f) ==> v.Functions[f].Func != nil
+//@   ensures istype(r, *VisitResult) && unbox(r, *VisitResult) != nil && (unbox(r, *VisitResult).Error != nil || (unbox(r, *VisitResult).Result != nil && (wfExprP(unbox(r, *VisitResult).Result) || istype(unbox(r, *VisitResult).Result, *expr.IdentityExpression))))
+//@   assigns v.visitedRoot, v.Transform
+//@ func (v *FHIRPathVisitor) VisitBooleanLiteral(ctx) (r)
+//@   requires v != nil && ctx != nil
+//@   requires forall f string :: haskey(v.Functions, f) ==> v.Functions[f].Func != nil
+//@   ensures istype(r, *VisitResult) && unbox(r, *VisitResult) != nil && (unbox(r, *VisitResult).Error != nil || (unbox(r, *VisitResult).Result != nil && (wfExprP(unbox(r, *VisitResult).Result) || istype(unbox(r, *VisitResult).Result, *expr.IdentityExpression))))
+//@   assigns v.visitedRoot, v.Transform
+//@ func (v *FHIRPathVisitor) VisitStringLiteral(ctx) (r)
+//@   requires v != nil && ctx != nil
+//@   requires forall f string :: haskey(v.Functions, f) ==> v.Functions[f].Func != nil
+//@   ensures istype(r, *VisitResult) && unbox(r, *VisitResult) != nil && (unbox(r, *VisitResult).Error != nil || (unbox(r, *VisitResult).Result != nil && (wfExprP(unbox(r, *VisitResult).Result) || istype(unbox(r, *VisitResult).Result, *expr.IdentityExpression))))
+//@   assigns v.visitedRoot, v.Transform
+//@ func (v *FHIRPathVisitor) VisitNumberLiteral(ctx) (r)
+//@   requires v != nil && ctx != nil
+//@   requires forall f string :: haskey(v.Functions, f) ==> v.Functions[f].Func != nil
+//@   ensures istype(r, *VisitResult) && unbox(r, *VisitResult) != nil && (unbox(r, *VisitResult).Error != nil || (unbox(r, *VisitResult).Result != nil && (wfExprP(unbox(r, *VisitResult).Result) || istype(unbox(r, *VisitResult).Result, *expr.IdentityExpression))))
+//@   assigns v.visitedRoot, v.Transform
+//@ func (v *FHIRPathVisitor) VisitDateLiteral(ctx) (r)
+//@   requires v != nil && ctx != nil
+//@   requires forall f string :: haskey(v.Functions, f) ==> v.Functions[f].Func != nil
+//@   ensures istype(r, *VisitResult) && unbox(r, *VisitResult) != nil && (unbox(r, *VisitResult).Error != nil || (unbox(r, *VisitResult).Result != nil && (wfExprP(unbox(r, *VisitResult).Result) || istype(unbox(r, *VisitResult).Result, *expr.IdentityExpression))))
+//@   assigns v.visitedRoot, v.Transform
+//@ func (v *FHIRPathVisitor) VisitDateTimeLiteral(ctx) (r)
+//@   requires v != nil && ctx != nil
+//@   requires forall f string :: haskey(v.Functions, f) ==> v.Functions[f].Func != nil
+//@   ensures istype(r, *VisitResult) && unbox(r, *VisitResult) != nil && (unbox(r, *VisitResult).Error != nil || (unbox(r, *VisitResult).Result != nil && (wfExprP(unbox(r, *VisitResult).Result) || istype(unbox(r, *VisitResult).Result, *expr.IdentityExpression))))
+//@   assigns v.visitedRoot, v.Transform
+//@ func (v *FHIRPathVisitor) VisitTimeLiteral(ctx) (r)
+//@   requires v != nil && ctx != nil
+//@   requires forall f string :: haskey(v.Functions, f) ==> v.Functions[f].Func != nil
+//@   ensures istype(r, *VisitResult) && unbox(r, *VisitResult) != nil && (unbox(r, *VisitResult).Error != nil || (unbox(r, *VisitResult).Result != nil && (wfExprP(unbox(r, *VisitResult).Result) || istype(unbox(r, *VisitResult).Result, *expr.IdentityExpression))))
+//@   assigns v.visitedRoot, v.Transform
+//@ func (v *FHIRPathVisitor) VisitQuantityLiteral(ctx) (r)
+//@   requires v != nil && ctx != nil
+//@   requires forall f string :: haskey(v.Functions, f) ==> v.Functions[f].Func != nil
+//@   ensures istype(r, *VisitResult) && unbox(r, *VisitResult) != nil && (unbox(r, *VisitResult).Error != nil || (unbox(r, *VisitResult).Result != nil && (wfExprP(unbox(r, *VisitResult).Result) || istype(unbox(r, *VisitResult).Result, *expr.IdentityExpression))))
+//@   assigns v.visitedRoot, v.Transform
+//@ func (v *FHIRPathVisitor) VisitMemberInvocation(ctx) (r)
+//@   requires v != nil && ctx != nil
+//@   requires forall f string :: haskey(v.Functions, f) ==> v.Functions[f].Func != nil
+//@   ensures istype(r, *VisitResult) && unbox(r, *VisitResult) != nil && (unbox(r, *VisitResult).Error != nil || (unbox(r, *VisitResult).Result != nil && (wfExprP(unbox(r, *VisitResult).Result) || istype(unbox(r, *VisitResult).Result, *expr.IdentityExpression))))
+//@   assigns v.visitedRoot, v.Transform
+//@ func (v *FHIRPathVisitor) VisitFunctionInvocation(ctx) (r)
+//@   requires v != nil && ctx != nil
+//@   requires forall f string :: haskey(v.Functions, f) ==> v.Functions[f].Func != nil
+//@   ensures istype(r, *VisitResult) && unbox(r, *VisitResult) != nil && (unbox(r, *VisitResult).Error != nil || (unbox(r, *VisitResult).Result != nil && (wfExprP(unbox(r, *VisitResult).Result) || istype(unbox(r, *VisitResult).Result, *expr.IdentityExpression))))
+//@   assigns v.visitedRoot, v.Transform
+// alternatives the library does not implement are rejected with an error, never compiled to nothing
+//@ func (v *FHIRPathVisitor) VisitUnionExpression(ctx) (r)
+//@   requires v != nil && ctx != nil
+//@   requires forall f string :: haskey(v.Functions, f) ==> v.Functions[f].Func != nil
+//@   ensures istype(r, *VisitResult) && unbox(r, *VisitResult) != nil && unbox(r, *VisitResult).Error != nil
+//@   assigns nothing
+//@ func (v *FHIRPathVisitor) VisitMembershipExpression(ctx) (r)
+//@   requires v != nil && ctx != nil
+//@   requires forall f string :: haskey(v.Functions, f) ==> v.Functions[f].Func != nil
+//@   ensures istype(r, *VisitResult) && unbox(r, *VisitResult) != nil && unbox(r, *VisitResult).Error != nil
+//@   assigns nothing
+//@ func (v *FHIRPathVisitor) VisitExternalConstant(ctx) (r)
+//@   requires v != nil && ctx != nil
+//@   requires forall f string :: haskey(v.Functions, f) ==> v.Functions[f].Func != nil
+//@   ensures istype(r, *VisitResult) && unbox(r, *VisitResult) != nil && unbox(r, *VisitResult).Error != nil
+//@   assigns nothing
+//@ func (v *FHIRPathVisitor) VisitIndexInvocation(ctx) (r)
+//@   requires v != nil && ctx != nil
+//@   requires forall f string :: haskey(v.Functions, f) ==> v.Functions[f].Func != nil
+//@   ensures istype(r, *VisitResult) && unbox(r, *VisitResult) != nil && unbox(r, *VisitResult).Error != nil
+//@   assigns nothing
+//@ func (v *FHIRPathVisitor) VisitTotalInvocation(ctx) (r)
+//@   requires v != nil && ctx != nil
+//@   requires forall f string :: haskey(v.Functions, f) ==> v.Functions[f].Func != nil
+//@   ensures istype(r, *VisitResult) && unbox(r, *VisitResult) != nil && unbox(r, *VisitResult).Error != nil
+//@   assigns nothing
+//@ func (v *FHIRPathVisitor) VisitQuantity(ctx) (r)
+//@   requires v != nil && ctx != nil
+//@   requires forall f string :: haskey(v.Functions, f) ==> v.Functions[f].Func != nil
+//@   ensures istype(r, *VisitResult) && unbox(r, *VisitResult) != nil && unbox(r, *VisitResult).Error != nil
+//@   assigns nothing
+//@ func (v *FHIRPathVisitor) VisitUnit(ctx) (r)
+//@   requires v != nil && ctx != nil
+//@   requires forall f string :: haskey(v.Functions, f) ==> v.Functions[f].Func != nil
+//@   ensures istype(r, *VisitResult) && unbox(r, *VisitResult) != nil && unbox(r, *VisitResult).Error != nil
+//@   assigns nothing
+//@ func (v *FHIRPathVisitor) VisitDateTimePrecision(ctx) (r)
+//@   requires v != nil && ctx != nil
+//@   requires forall f string :: haskey(v.Functions, f) ==> v.Functions[f].Func != nil
+//@   ensures istype(r, *VisitResult) && unbox(r, *VisitResult) != nil && unbox(r, *VisitResult).Error != nil
+//@   assigns nothing
+//@ func (v *FHIRPathVisitor) VisitPluralDateTimePrecision(ctx) (r)
+//@   requires v != nil && ctx != nil
+//@   requires forall f string :: haskey(v.Functions, f) ==> v.Functions[f].Func != nil
+//@   ensures istype(r, *VisitResult) && unbox(r, *VisitResult) != nil && unbox(r, *VisitResult).Error != nil
+//@   assigns nothing
+//@ func (v *FHIRPathVisitor) VisitIdentifier(ctx) (r)
+//@   requires v != nil && ctx != nil
+//@   requires forall f string :: haskey(v.Functions, f) ==> v.Functions[f].Func != nil
+//@   ensures istype(r, *VisitResult) && unbox(r, *VisitResult) != nil && unbox(r, *VisitResult).Error != nil
+//@   assigns nothing
+//@ func (v *FHIRPathVisitor) VisitThisInvocation(ctx) (r)
+//@   requires v != nil && ctx != nil
+//@   requires forall f string :: haskey(v.Functions, f) ==> v.Functions[f].Func != nil
+//@   ensures istype(r, *VisitResult) && unbox(r, *VisitResult) != nil && (unbox(r, *VisitResult).Error != nil || (unbox(r, *VisitResult).Result != nil && (wfExprP(unbox(r, *VisitResult).Result) || istype(unbox(r, *VisitResult).Result, *expr.IdentityExpression))))
+//@   assigns nothing
+
+// ---- function calls (C16 at the visitor: a call is accepted only when the name is in the
+// table and the number of argument expressions lies within that entry's bounds) --------------
+//@ func (v *FHIRPathVisitor) VisitFunction(ctx) (r)
+//@   requires v != nil && ctx != nil
+//@   requires forall f string :: haskey(v.Functions, f) ==> v.Functions[f].Func != nil
+//@   let ident = nodeText(g4Ident(ctx))
+//@   let n = ite(g4ParamList(ctx) == nil, 0, g4NParams(g4ParamList(ctx)))
+//@   ensures istype(r, *VisitResult) && unbox(r, *VisitResult) != nil && (unbox(r, *VisitResult).Error != nil || (unbox(r, *VisitResult).Result != nil && (wfExprP(unbox(r, *VisitResult).Result) || istype(unbox(r, *VisitResult).Result, *expr.IdentityExpression))))
+//@   ensures unbox(r, *VisitResult).Error == nil ==> haskey(v.Functions, ident) && v.Functions[ident].MinArity <= n && n <= v.Functions[ident].MaxArity
+//@   ensures !haskey(v.Functions, ident) ==> is(unbox(r, *VisitResult).Error, errUnresolvedFunction)
+//@   ensures haskey(v.Functions, ident) && (n < v.Functions[ident].MinArity || n > v.Functions[ident].MaxArity) ==> unbox(r, *VisitResult).Error != nil
+//@   assigns v.visitedRoot, v.Transform
+
+//@ func (v *FHIRPathVisitor) VisitParamList(ctx) (r)
+//@   requires v != nil && ctx != nil
+//@   requires forall f string :: haskey(v.Functions, f) ==> v.Functions[f].Func != nil
+//@   ensures istype(r, []*VisitResult) && len(unbox(r, []*VisitResult)) == g4NParamsP(ctx)
+//@   assigns v.visitedRoot, v.Transform
+
+//@ func (v *FHIRPathVisitor) VisitTypeSpecifier(ctx) (r)
+//@   requires v != nil && ctx != nil
+//@   requires forall f string :: haskey(v.Functions, f) ==> v.Functions[f].Func != nil
+//@   ensures istype(r, *typeResult) && unbox(r, *typeResult) != nil
+//@   assigns v.visitedRoot, v.Transform
+
+//@ func (v *FHIRPathVisitor) VisitQualifiedIdentifier(ctx) (r)
+//@   requires v != nil && ctx != nil
+//@   requires forall f string :: haskey(v.Functions, f) ==> v.Functions[f].Func != nil
+//@   ensures istype(r, []string)
+//@   assigns nothing
